@@ -249,24 +249,33 @@ def forbidden_scan(props_rel):
     return hits
 
 
-def lean_obligations(pid, props_rel, tier="quick"):
-    """Regenerates the audit module, builds it, returns dict(obligations, discharged, broken[], log)."""
-    ns, names = theorem_names(props_rel)
+def lean_obligations(pid, props_rels, tier="quick"):
+    """Regenerates the audit module, builds it, returns dict(obligations, discharged, broken[], log).
+    `props_rels` is one property module (path relative to lean/) or a list of them."""
+    if isinstance(props_rels, str):
+        props_rels = [props_rels]
+    fulls = []
     audit_rel = "J5V/Audit/%s.lean" % pid
-    body = "import %s\n" % module_of(props_rel)
-    for n in names:
-        body += "#print axioms %s\n" % ((ns + "." + n) if ns else n)
+    body = "".join("import %s\n" % module_of(r) for r in props_rels)
+    for rel in props_rels:
+        ns, names = theorem_names(rel)
+        for n in names:
+            fulls.append((ns + "." + n) if ns else n)
+    for full in fulls:
+        body += "#print axioms %s\n" % full
     ap = os.path.join(LEAN, audit_rel)
     if not os.path.exists(ap) or open(ap).read() != body:
         with open(ap, "w") as f:
             f.write(body)
-    rc, log, dt = sh(["lake", "build", module_of(props_rel)], cwd=LEAN, timeout=3000)
+    mods = [module_of(r) for r in props_rels]
+    rc, log, dt = sh(["lake", "build"] + mods, cwd=LEAN, timeout=3000)
     if rc == 0:
         rc, log2, dt2 = sh(["lake", "env", "lean", audit_rel], cwd=LEAN, timeout=3000)
         log += log2
         dt += dt2
-    res = {"obligations": len(names), "discharged": 0, "broken": [], "axioms": {}, "build_ok": rc == 0,
-           "lake_s": round(dt, 1), "theorems": names}
+    short = [f.split(".")[-1] for f in fulls]
+    res = {"obligations": len(fulls), "discharged": 0, "broken": [], "axioms": {}, "build_ok": rc == 0,
+           "lake_s": round(dt, 1), "theorems": short}
     if rc != 0:
         errs = re.findall(r"error: (\S+?\.lean:\d+:\d+): (.*)", log)
         res["broken"] = ["%s %s" % (a, b[:200]) for a, b in errs][:20] or ["lake build failed: " + log[-1500:]]
@@ -276,11 +285,7 @@ def lean_obligations(pid, props_rel, tier="quick"):
         res["axioms"][m.group(1)] = [a.strip() for a in m.group(2).split(",") if a.strip()]
     for m in re.finditer(r"'([^']+)' does not depend on any axioms", log):
         res["axioms"][m.group(1)] = []
-    if not res["axioms"]:
-        # build was cached: lake replays the log; if not, force by touching
-        pass
-    for n in names:
-        full = (ns + "." + n) if ns else n
+    for full in fulls:
         ax = res["axioms"].get(full)
         if ax is None:
             res["broken"].append("no axiom report for " + full)
@@ -288,15 +293,18 @@ def lean_obligations(pid, props_rel, tier="quick"):
             res["broken"].append("%s uses axioms %s" % (full, ax))
         else:
             res["discharged"] += 1
-    hits = forbidden_scan(props_rel)
+    hits = []
+    for rel in props_rels:
+        hits += forbidden_scan(rel)
     if hits:
-        res["broken"] += ["forbidden construct: " + h for h in hits]
+        res["broken"] += ["forbidden construct: " + h for h in sorted(set(hits))]
     if tier == "thorough":
         # independent re-check of the compiled proofs by the toolchain's leanchecker
-        rc, log, dt = sh(["lake", "env", "leanchecker", module_of(props_rel)], cwd=LEAN, timeout=3000)
-        res["leanchecker"] = {"rc": rc, "s": round(dt, 1), "log": log[-500:]}
-        if rc != 0:
-            res["broken"].append("leanchecker rejected %s: %s" % (module_of(props_rel), log[-300:]))
+        for mod in mods:
+            rc, log, dt = sh(["lake", "env", "leanchecker", mod], cwd=LEAN, timeout=3000)
+            res.setdefault("leanchecker", []).append({"module": mod, "rc": rc, "s": round(dt, 1), "log": log[-500:]})
+            if rc != 0:
+                res["broken"].append("leanchecker rejected %s: %s" % (mod, log[-300:]))
     return res
 
 
@@ -587,7 +595,7 @@ def run_check(pid, tier, seed):
     cov = {
         "obligations": ob["obligations"],
         "discharged": ob["discharged"],
-        "checker_cmd": "cd /verif/lean && lake build J5V.Audit.%s  (Lean 4.33.0 kernel; `#print axioms` on every theorem of %s)" % (pid, cfg["lean_props"]),
+        "checker_cmd": "cd /verif/lean && lake build J5V.Audit.%s  (Lean 4.33.0 kernel; `#print axioms` on every theorem of %s)" % (pid, cfg["lean_props"] if isinstance(cfg["lean_props"], str) else ", ".join(cfg["lean_props"])),
         "trusted_base": cfg.get("trusted_base", []),
         "theorems": ob["theorems"],
         "axioms_used": sorted({a for v in ob["axioms"].values() for a in v}),
